@@ -94,6 +94,30 @@ impl Check for C12 {
 			}
 			*c.feed_faults.entry("feed:forced_flat_longer_than_window".into()).or_insert(0) += 1;
 		}
+		// one fault run in eight ends in a very long exactly flat tail: exponentially weighted state decays towards the
+		// bottom of the floating-point range (quotients of two decayed averages must stay finite and in range)
+		if k % 8 == 5 && c.stream.len() > 10 {
+			let mut rt = run.sub("flat_tail");
+			let last = *c.stream.last().unwrap();
+			let extra = 700 + rt.usize_below(900);
+			c.stream.extend(std::iter::repeat(last).take(extra));
+			// short smoothing periods decay fastest
+			if let (Some(cfg), true) = (c.cfg.as_mut(), rt.chance(0.5)) {
+				let before = cfg.clone();
+				cfgmut::shrink_periods(cfg, 2 + rt.below(3));
+				let info = all_inds.iter().find(|x| x.name == c.sut);
+				let ok = info.map_or(false, |i| matches!(guarded(|| (i.validate)(cfg)), Ok(Ok(true))) && matches!(guarded(|| (i.make)(cfg, &c.stream[0])), Ok(Ok(_))));
+				if !ok {
+					*cfg = before;
+				}
+			} else if let sut::Params::Two(a, b) = &mut c.params {
+				if rt.chance(0.5) {
+					*a = 1 + rt.below(3);
+					*b = 1 + rt.below(3);
+				}
+			}
+			*c.feed_faults.entry("feed:very_long_flat_tail".into()).or_insert(0) += 1;
+		}
 		c
 	}
 	fn execute(&self, case: &MCase, stats: &mut Stats) -> Vec<Violation> {
